@@ -10,6 +10,8 @@ CONSTANTS
   MaxDelay = 0
   Leaf <- c_Leaf
   Mode <- c_Mode3
+  CmdKinds <- c_AllKinds
+  Setup = TRUE
   MaxUndo = 2
 INIT SInit
 NEXT SNext
